@@ -49,6 +49,7 @@ PROPS["C06"] = {"units": [
     plain_unit("regress", "pktbuf", "^TestRegressC06", overlay="plain"),
     rapid_unit("sequential", "pktbuf", "^TestC06Sequential$", 3000, 16 * 40000, overlay="plain"),
     rapid_unit("concurrent-free", "pktbuf", "^TestC06Concurrent$", 1500, 16 * 20000, overlay="plain"),
+    rapid_unit("schedules", "pktsched", "^TestC06Schedules$", 800, 16 * 8000, overlay="full"),
 ]}
 PROPS["C07"] = {"units": [
     plain_unit("regress", "pktbuf", "^TestRegressC07", overlay="plain"),
@@ -65,4 +66,9 @@ PROPS["C20"] = {"units": [
 PROPS["C09"] = {"units": [
     plain_unit("regress", "dl", "^TestRegressC09", overlay="full"),
     rapid_unit("sequential", "dl", "^TestC09Sequential$", 50000, 16 * 1000000, overlay="full"),
+]}
+
+PROPS["C08"] = {"units": [
+    plain_unit("regress", "pktsched", "^TestRegressC08", overlay="full"),
+    rapid_unit("schedules", "pktsched", "^TestC08Schedules$", 1500, 16 * 15000, overlay="full"),
 ]}
